@@ -37,6 +37,8 @@ structure Grammar where
   externals : List Rule := []
   conflicts : List (List String) := []
   word : Option String := none
+  /-- the `precedences` lists (names only) -/
+  precedences : List (List String) := []
   deriving Repr, Inhabited
 
 namespace Grammar
@@ -57,6 +59,19 @@ def choiceOf : List Rule → Rule
   | [r] => r
   | r :: rs => .choice r (choiceOf rs)
 
+/-- NAMED precedences of the generated operator grammars follow the convention `L<n>` / `Lm<n>` (level
+`n` / `-n`); the driver checks that the grammar's `precedences` list orders these names by their
+levels, so that the named grammar means what the integer table says.  Any other name reads as 0. -/
+def levelOfName (s : String) : Int :=
+  match s.toList with
+  | 'L' :: 'm' :: ds => match (String.ofList ds).toNat? with
+    | some n => -(n : Int)
+    | none => 0
+  | 'L' :: ds => match (String.ofList ds).toNat? with
+    | some n => (n : Int)
+    | none => 0
+  | _ => 0
+
 open Lean in
 partial def ruleOfJson (j : Json) : Rule :=
   let ty := (j.getObjValAs? String "type").toOption.getD ""
@@ -68,6 +83,7 @@ partial def ruleOfJson (j : Json) : Rule :=
   let strv := fun (k : String) => (j.getObjValAs? String k).toOption.getD ""
   let intv := fun (k : String) =>
     match (j.getObjVal? k).toOption with
+    | some (Json.str nm) => levelOfName nm
     | some v => (v.getInt?).toOption.getD 0
     | none => 0
   match ty with
@@ -108,7 +124,10 @@ def grammarOfJson (j : Json) : Grammar :=
     conflicts := (arr "conflicts").map fun c => match c with
       | Json.arr a => a.toList.filterMap fun x => x.getStr?.toOption
       | _ => []
-    word := (j.getObjValAs? String "word").toOption }
+    word := (j.getObjValAs? String "word").toOption
+    precedences := (arr "precedences").map fun l => match l with
+      | Json.arr a => a.toList.filterMap fun x => (x.getObjValAs? String "value").toOption <|> (x.getObjValAs? String "name").toOption
+      | _ => [] }
 
 def parseGrammar (s : String) : Option Grammar :=
   match Lean.Json.parse s with
